@@ -7,9 +7,11 @@ META = {
                    'symbolic scripts: per downstream replica the concatenation of the batches handed to the network '
                    'sender is exactly the routed sequence, every batch stamped with the producer coordinate, nothing '
                    'left unsent at the end. Consumer side: Start over N producers and every arrival interleaving of '
-                   'their batches: the elements of each producer come out completely, once, in order.',
-    'assumptions': ['flume channels are FIFO and lossless', 'TCP is a reliable byte stream; remote_send/remote_recv '
-                    'framing (bincode) is outside this check'],
+                   'their batches: the elements of each producer come out completely, once, in order. TCP framing: '
+                   'remote_send followed by remote_recv over one byte stream (several messages back to back) returns the '
+                   'same message for the same receiver endpoint and leaves the stream aligned.',
+    'assumptions': ['flume channels are FIFO and lossless', 'TCP is a reliable byte stream',
+                    'bincode is an injective encoding whose serialized_size agrees with serialize_into; messages < 4 GiB'],
     'trusted': ['mirsym MIR executor and its std model table', 'z3 / cvc5'],
 }
 
@@ -23,3 +25,105 @@ def classify(t, v):
     if t.factory == 'start_harness':
         return classify_start(t, v)
     return t.role
+
+
+# ------------------------------------------------------------------------------------ TCP framing
+
+from lib.runner import Task                               # noqa: E402
+from mirsym.values import Int, Agg, Enum, Ref, Opaque      # noqa: E402
+from mirsym.executor import PyObj, Unsupported             # noqa: E402
+from mirsym.explore import check, Violation                # noqa: E402
+from mirsym.models import zbool, ok, err, deref, values_eq  # noqa: E402
+from mirsym.models_coll import VecModel                    # noqa: E402
+from mirsym.models_wire import ByteBuf, Chunk              # noqa: E402
+from mirsym import hlib                                    # noqa: E402
+
+
+class Wire(PyObj):
+    """the TCP byte stream: what `write_all` appends is what `read_exact` consumes, in order"""
+    name = 'VerifWire'
+
+    def __init__(self):
+        self.chunks = []
+
+    def trait_call(self, ex, trait, method, args):
+        if method == 'write_all':
+            buf = deref(args[1])
+            if not isinstance(buf, ByteBuf):
+                raise Unsupported('write_all of %r' % (buf,))
+            self.chunks += buf.chunks
+            return ok(Agg('tuple', None, []))
+        if method == 'read_exact':
+            dst = args[1]
+            if not self.chunks:
+                return err(Opaque('io::Error(UnexpectedEof)'))
+            ch = self.chunks[0]
+            if isinstance(dst, hlib.SliceRef):
+                want = Int('usize', len(dst))
+            else:
+                want = deref(dst).total(ex)
+            same = ex.binop('Eq', want, ch.length)
+            if not ex.valid(zbool(same)):
+                raise Violation('receiver reads a frame part of %r bytes where the sender wrote %r bytes: the stream '
+                                'loses its framing' % (want, ch.length))
+            self.chunks.pop(0)
+            if isinstance(dst, hlib.SliceRef):
+                ex.env.setdefault('wire_arrays', {})[id(dst.items)] = ch
+            else:
+                deref(dst).chunks[:] = [ch]
+            return ok(Agg('tuple', None, []))
+        raise Unsupported('Wire ' + method)
+
+
+def framing_harness(w, nmsgs):
+    send = [f for f in w.prog.functions if f.name == 'remote_send'][0]
+    recv = [f for f in w.prog.functions if f.name == 'remote_recv'][0]
+
+    def h(ex):
+        wire = Wire()
+        sent = []
+        bc_host = ex.fresh_int('u64', 'dest_host')
+        bc_block = ex.fresh_int('u64', 'dest_block')
+        prev_block = ex.fresh_int('u64', 'prev_block')
+        for i in range(nmsgs):
+            dest = hlib.mk_struct(w, 'ReceiverEndpoint',
+                                  coord=hlib.mk_struct(w, 'Coord', 'network::Coord', block_id=bc_block, host_id=bc_host,
+                                                       replica_id=ex.fresh_int('u64', 'dest_replica%d' % i)),
+                                  prev_block_id=prev_block)
+            payload = ex.fresh_int('u64', 'payload%d' % i)
+            msg = hlib.mk_struct(w, 'NetworkMessage', sender=hlib.coord(w, 7, 0, 0),
+                                 data=Enum('NetworkData', 'Batch', 0, [VecModel([hlib.se('Item', payload)])]))
+            L = None
+            ex.call_function(send, [msg, dest, Ref([wire], 0), 'addr'])
+            sent.append((dest, msg))
+        # every message is < 4 GiB (the header stores the size as u32; larger messages panic on the sender)
+        demux = hlib.mk_struct(w, 'DemuxCoord', coord=hlib.mk_struct(w, 'BlockCoord', block_id=bc_block, host_id=bc_host),
+                               prev_block_id=prev_block)
+        for i in range(nmsgs):
+            r = ex.call_function(recv, [demux, Ref([wire], 0), 'addr'])
+            if r.variant != 'Some':
+                raise Violation('remote_recv failed on a complete frame', hlib._wit(ex))
+            d2, m2 = r.fields[0].fields
+            check(ex, zbool(values_eq(ex, d2, sent[i][0])),
+                  'message delivered to a different receiver endpoint than it was sent to')
+            check(ex, zbool(values_eq(ex, m2, sent[i][1])), 'message altered in transit')
+            hlib.cover(ex, 'round_trip')
+        if wire.chunks:
+            raise Violation('bytes left on the stream after all messages were received', hlib._wit(ex))
+        return {'nmsgs': nmsgs}
+    return h
+
+
+_link_tasks = TASKS
+
+
+def TASKS(tier):     # noqa: F811
+    ts = _link_tasks(tier)
+    for n in ([1, 2] if tier == 'quick' else [1, 2, 3]):
+        ts.append(Task('framing_%d' % n, 'framing_harness', {'nmsgs': n},
+                       bounds='remote_send x %d then remote_recv x %d over one byte stream: destination replica, block, '
+                              'host, previous block and payload symbolic; bincode = injective encoding with a symbolic '
+                              'message length (< 2^32) and the fixed-int header length derived from the header fields' %
+                              (n, n), role='framing', opts={'covers': ['round_trip']},
+                       budget=100))
+    return ts
